@@ -1467,6 +1467,35 @@ impl Domain for D {
                 }
             }
         }
+        // 2b. thorough: length-6 sweeps of the first alphabet, and random alphabets
+        if thorough {
+            for kind in ["vec", "sref"] {
+                let old = if kind == "sref" { pat(2, 0xa0) } else { pat(1, 0xa0) };
+                writeln!(out, "hash {} 2 {} 6 / {}", kind, to_hex(&old), alphabet(0, 1).join(" / ")).unwrap();
+            }
+            for i in 0..48 {
+                let kind = KINDS[i % 4];
+                let cap = 1 + r.below(4) as usize;
+                let sl = kind == "slice" || kind == "sref";
+                let len = if sl { cap } else { r.below(cap as u64 + 1) as usize };
+                let room = if sl { cap } else { cap - len };
+                let mut al: Vec<String> = vec!["init".to_string(), "open".to_string()];
+                for _ in 0..6 {
+                    let n = r.below(room as u64 + 2) as usize;
+                    let x = match r.below(9) {
+                        0 | 1 | 2 => format!("w {}", to_hex(&r.bytes(n))),
+                        3 => format!("open{}", caps_str(&mut r, room).0),
+                        4 => format!("read{}", caps_str(&mut r, room).0),
+                        5 => format!("setr {}", rdr_str(&mut r, 0)),
+                        6 => format!("adv {} {:02x}", n, r.below(256)),
+                        7 => format!("xr {:02x} {}", r.below(256), n),
+                        _ => "drop".to_string(),
+                    };
+                    al.push(x);
+                }
+                writeln!(out, "hash {} {} {} 4 / {}", kind, cap, to_hex(&pat(len, 0xa0)), al.join(" / ")).unwrap();
+            }
+        }
         // 3. random sessions
         let (n, nops) = if miri { (60, 12) } else if thorough { (60000, 30) } else { (1500, 24) };
         for i in 0..n {
